@@ -38,3 +38,7 @@ def run(tier, seed):
                         "max_dispatch_interval as a time limit is not exercised (callback-count limit only)"],
     }
     return ec.standard_run("C03", tier, seed, plan)
+
+
+def replay(case, seed):
+    return ec.replay_case("C03", case, seed)
